@@ -2,6 +2,7 @@
    Model: Model/IcyLayer.v (LAYER_n record), Model/IcyDoc.v (chunks of a document); constants: Gen/IcyGen.v. *)
 From Coq Require Import ZArith NArith List Bool String.
 From IE Require Import Lib.Tbl Gen.IcyGen Model.IcyLayer Model.IcyDoc Proofs.IcyLayerProofs Proofs.IcyDocProofs.
+From IE Require Model.Unicode.
 Import ListNotations.
 Local Open Scope N_scope.
 
@@ -57,6 +58,28 @@ Proof. exact negative_width_panics. Qed.
 
 Theorem title_u32_needed : forall L, N.of_nat (List.length (title L)) = 4294967296 -> firstn 4 (enc_header L) = [0; 0; 0; 0].
 Proof. exact title_length_wraps. Qed.
+
+(* ---------------------------------------------------------------- the checks of the merged loader *)
+(* The merged loader converts the character field with the checked char::from_u32 (loading error instead of an abort)
+   and the title with String::from_utf8_lossy.  That is what `scalar (ch c)` in wf_layer and `utf8_valid (title L)` in
+   ty_layer are for — both are Rust type invariants (char, String), a model layer outside them does not come back: *)
+Theorem scalar_char_needed :
+  (exists bs, encode (lay RNormal None 0 [[mkc 55296 7 0 0 0]]) = Ok bs /\ decode bs = Err 10) /\
+  (exists bs, encode (lay RNormal None 0 [[A_cell; mkc 1114112 7 0 0 0]]) = Ok bs /\ decode bs = Err 10).
+Proof. exact non_scalar_char_rejected. Qed.
+
+Theorem title_utf8_needed :
+  exists bs L', encode (mkLayer [65; 255] RNormal MNormal None true false false false false 0 0 0 None 1 1 0 [[A_cell]]) = Ok bs /\
+                decode bs = Ok L' /\ title L' = [65; 239; 191; 189].
+Proof. exact invalid_title_replaced. Qed.
+
+(* … and on what the writer makes of a Rust layer the two checks never fire: the record of every cell the writer may
+   look at decodes to that very cell, a valid title is left alone; the character check rejects exactly the non-scalars *)
+Theorem loader_checks_silent_on_writer_output :
+  (forall c r, cell_ok c -> dec_cell (enc_cell c ++ r) = Ok (if is_visible c then CSet c r else CSkip r)) /\
+  (forall t, Unicode.utf8_valid t = true -> Unicode.utf8_lossy t = t) /\
+  (forall c f b p a r, scalar c = false -> checked_cell c f b p a r = Err 10).
+Proof. exact new_checks_silent. Qed.
 
 (* ---------------------------------------------------------------- the fixed defect *)
 (* before the fix: an invisible cell with an extra flag, followed by a visible cell, made the loader fail … *)
